@@ -112,6 +112,44 @@ func main() {
 			}
 		})
 
+		// reason shapes: every string of <=3 units over valid, replacement-character, malformed
+		// and truncated sequences (the verdict must be utf8.Valid of the whole reason, wherever
+		// the first suspicious byte sits), for a handful of acceptable codes
+		r.Part("E2b-reason-shapes", func(t *explore.T) {
+			units := []string{"a", "\u00e9", "\u20ac", "\ufffd", "\U0001F600", "\xff", "\xe2\x82", "\xc0\x80", "\xed\xa0\x80", "\x80", "\xef\xbf"}
+			var reasons []string
+			var gen func(cur string, k int)
+			gen = func(cur string, k int) {
+				reasons = append(reasons, cur)
+				if k == 3 {
+					return
+				}
+				for _, u := range units {
+					gen(cur+u, k+1)
+				}
+			}
+			gen("", 0)
+			for _, c := range []int{1000, 1001, 1003, 1011, 3000, 4999} {
+				for _, reason := range reasons {
+					c, reason := c, reason
+					t.Do(func() string { return fmt.Sprintf("code=%d reason=%q", c, reason) }, func() *explore.Fail {
+						err := ws.CheckCloseFrameData(ws.StatusCode(c), reason)
+						if ok := utf8.ValidString(reason); ok != (err == nil) {
+							if ok {
+								return explore.Failf("refuses-valid-close", "reason %q: %v", reason, err)
+							}
+							return explore.Failf("accepts-bad-utf8-reason", "reason %q accepted", reason)
+						}
+						if err != nil && err != ws.ErrProtocolInvalidUTF8 {
+							return explore.Failf("bad-reason-wrong-error", "%v", err)
+						}
+						t.Outcome(fmt.Sprintf("valid=%v", err == nil))
+						return nil
+					})
+				}
+			}
+		})
+
 		r.Part("E2-CheckCloseFrameData", func(t *explore.T) {
 			reasons := []string{"", "ok", "€", "\xff", "\xe2\x82", "\xc0\x80", "\xed\xa0\x80"}
 			for c := 0; c < 65536; c++ {
